@@ -147,4 +147,5 @@ _inst0 = install
 def install(world):  # noqa: F811
     _inst0(world)
     world.contracts[SEL].shards = 12
+    world.contracts[SEL].shard_by = "vc"
     world.lemmas.append(Lemma("C12/evo_body-length", ["C12"], _lemma_len))
